@@ -373,7 +373,7 @@ pub fn run(ctx: &Ctx) -> i32 {
     ctx.extra("exhaustive_bounds", json!(bounds));
 
     // random histories
-    let cases = if ctx.thorough() { 2_000_000 } else { 200_000 };
+    let cases = if ctx.thorough() { 20_000_000 } else { 200_000 };
     let strat = (1u8..=4, 0u8..=2, proptest::collection::vec(prop_oneof![2 => Just(Choice::Complete), 5 => (1u16..64).prop_map(Choice::Deps)], 0..40), 1usize..=8)
         .prop_map(|(n, fresh, choices, rounds)| History { seeds: (0..n).collect(), choices, max_rounds: rounds, universe: n + fresh });
     search(ctx, "c26", cases, &strat, |h| encode(h), |h| check_history(ctx, h));
